@@ -286,10 +286,14 @@ def _run_leftover(pm, R, key, ci):
 
     def scan(a):
         try:
-            r = a.scan_string(doc)
+            from vf import app as _app
+
+            r = _app.guarded(lambda: a.scan_string(doc))
             return sorted((f.line_number, f.column_number, f.rule_id) for f in r.scan_failures)
         except PyMarkdownApiException as e:
             return "EXC:" + str(e)[:120]
+        except Exception as e:  # noqa: BLE001  (watchdog: the same for both sides or inconclusive)
+            return "ERR:" + type(e).__name__
 
     want, got = scan(api(False)), scan(api(True))
     R.count("documents")
